@@ -518,11 +518,12 @@ theorem C15_fact_resolutions :
     ∧ resolutions = [60 * 60 * 1000, 5 * 60 * 1000, 0] := by decide
 
 theorem C15_fact_getFor :
-    Thanos.Facts.storesGetForConds = ["mint > maxt", "b.meta.MaxTime <= mint", "b.meta.MinTime > maxt",
+    Thanos.Facts.storesGetForConds = ["mint > maxt", "i == len(s.resolutions)", "b.meta.MaxTime <= mint", "b.meta.MinTime > maxt",
       "i+1 < len(s.resolutions)", "len(blockMatchers) == 0 || b.matchRelabelLabels(blockMatchers)",
       "i+1 < len(s.resolutions)"]
     ∧ Thanos.Facts.storesGetForRecursion = ["start, b.meta.MinTime - 1, s.resolutions[i+1], blockMatchers",
-      "start, maxt, s.resolutions[i+1], blockMatchers"] := by decide
+      "start, maxt, s.resolutions[i+1], blockMatchers"]
+    ∧ Thanos.Facts.storesGetForAppends = ["appendMissingBlocks", "append", "appendMissingBlocks"] := by decide
 
 /-- the recursive call passes `s.resolutions[i+1]` as maximum resolution and searches the level again:
     with the (strictly descending) level table that search ends at level `i+1`, which is what `getForL` does -/
